@@ -1,9 +1,12 @@
 import ChythonModel.Py.Wire
 import ChythonModel.Model.C03Front
+import ChythonModel.Model.C03Hydrogens
 /-!
 Line-protocol driver for C03.  Requests (`<op> <code points…>`):
   `T s`  → `smiles_tokenize(s)`      : `ok <tokens>` | `lib:<Class>` | `crash:<Class>`
   `S s`  → `smiles(s)`               : `ok M <record> # <built>` | `ok R <records> # <kept records> # <built>` | error as above
+           `<built>` lists per atom `number:Z:isotope:charge:hydrogens:radical` — hydrogens / radical flag as left by the
+           hydrogen loop of `create_molecule` (`molHydrogens`) — and the adjacency in insertion order
 The Python side renders the real objects in exactly the same canonical text.
 -/
 open ChythonModel.Py ChythonModel.Model.C03
@@ -64,7 +67,14 @@ def showRec (r : MolRec) : String :=
   s!"atoms={atoms} bonds={bonds} order={order} satoms={sa} sbonds={sb} starts={stt} map={mp}"
 
 def showOut (m : MolOut) : String :=
-  let atoms := sepBy "," (m.atoms.map fun (n, z, iso, ch, _, _) => s!"{n}:{z}:{showOpt iso}:{ch}")
+  let hs : List (Nat × Option Nat × Bool) := match molHydrogens m with
+    | .ok l => l
+    | .error _ => []          -- rendered as `?` below: never equal to what the real code shows
+  let atoms := sepBy "," (m.atoms.map fun (n, z, iso, ch, _, _) =>
+    let hr := match lookupNat n hs with
+      | some (h, r) => s!"{showOpt h}:{if r then 1 else 0}"
+      | none => "?"
+    s!"{n}:{z}:{showOpt iso}:{ch}:{hr}")
   let adj := sepBy ";" (m.adj.map fun (n, l) => s!"{n}>" ++ sepBy "," (l.map fun (k, o) => s!"{k}:{o}"))
   s!"{atoms} {adj}"
 
